@@ -22,7 +22,7 @@ func rulesC02(c *Ctx, r *Report) {
 	rulesScanBuf(c, r, "formats/fastq")
 	rulesFastqLayout(c, r)
 	rulesScanAliasPkg(c, r, "formats/fastq")
-	rulesPassAllFor(c, r, "formats/fastq", 3)
+	rulesPassAllFor(c, r, "formats/fastq", 2)
 	rulesNoBufferedPkg(c, r, "formats/fastq")
 	rulesNoCustomSplit(c, r)
 	rulesYDPkg(c, r, "formats/fastq") // an error item ends the iteration: reading on after a malformed record re-synchronises on arbitrary lines and fabricates records
